@@ -85,18 +85,19 @@ def chunk_case(col, case):
         bpp = fmt // 8
         cd = K.ControlData(f=fmt, s=n // bpp, v=1, c=1, r=1)
         want = dict(a="T", f=str(fmt), t="d", s=str(n // bpp), v="1", z="0", C="1", c="1", r="1")
-    if level:
-        want["o"] = "z"
     tr = K.Transmission(cd, payload, level)
     chunks = list(tr.get_chunks())
-    nb64 = len(base64.standard_b64encode(zlib.compress(payload, level) if level else payload))
+    t = vterm.VTerm(4, 4, "kitty", strict=True)
+
+    def transmitted():
+        return sum(len(p) for _, p in t.kitty_chunks)       # base64 characters, as the decoder saw them
 
     def bad(clause, what):
+        nb64 = transmitted()
         col.violation(dict(part="chunks", clause=clause, level=level, payload=kind, f=fmt,
                            exact_multiple=nb64 % CHUNK == 0 and nb64 > 0,
                            nchunks=min(-(-nb64 // CHUNK), 3)), what, case)
 
-    t = vterm.VTerm(4, 4, "kitty", strict=True)
     for i, ch in enumerate(chunks):
         t.feed(ch)
         if not t.in_ground() or len(t.kitty_chunks) != i + 1:
@@ -115,14 +116,13 @@ def chunk_case(col, case):
         bad(clause, text)
     first = dict(cmds[0][0][0])
     first.pop("m", None)
+    deflated = first.pop("o", None) == "z"      # compression is optional: judged by decoding accordingly
     if first != want:
         bad("control-keys", f"first chunk keys {first}, expected {want}")
     joined = "".join(p for _, p in cmds[0])
-    if len(joined) != nb64:
-        bad("payload", f"{len(joined)} base64 characters transmitted, the payload encodes to {nb64}")
     try:
         raw = base64.b64decode(joined, validate=True)
-        if level:
+        if deflated:
             raw = zlib.decompress(raw)
     except Exception as e:
         bad("payload", f"payload does not decode: {type(e).__name__}: {e}")
@@ -137,7 +137,7 @@ def chunk_case(col, case):
     if len(cmds[0]) > 1:
         col.add_distinct(("chunks", n, level, kind, fmt))
     col.max("chunks_per_transmission", len(cmds[0]))
-    if nb64 and nb64 % CHUNK == 0:
+    if transmitted() and transmitted() % CHUNK == 0:
         col.inc("transmissions_on_exact_chunk_multiple")
 
 
@@ -218,8 +218,8 @@ def judge_kitty(col, case, t, ref, alpha, termbg, w, h, cell, render_px, method,
         if got != want:
             bad("control-keys", f"transmission {i}: keys {got}, expected {want}")
             return
-        if ("o" in k) != bool(comp):
-            bad("control-keys", f"transmission {i}: o={k.get('o')} with compress={comp}")
+        if "o" in k and not comp:
+            bad("control-keys", f"transmission {i}: o={k.get('o')} with compress=0 (no compression requested)")
     sizes = {im["size"] for im in imgs}
     if len(sizes) != 1:
         bad("strip-size", f"strips of different sizes {sorted(sizes)}")
@@ -370,6 +370,7 @@ def _prod(**dims):
 
 
 BOUNDARY = [["pat", 32, 32, "RGB"], ["pat", 41, 25, "RGB"], ["pat", 64, 32, "RGB"], ["pat", 32, 24, "RGBA"]]
+MIXED = [["fn", 32, 64, "RGB"], ["nf", 32, 64, "RGB"], ["fn", 16, 12, "RGBA"]]     # strips of unequal compressibility
 SMALL = [["pat", 1, 1, "RGBA"], ["pat", 2, 3, "RGB"], ["pat", 5, 4, "RGBA"], ["pat", 16, 9, "RGBA"],
          ["mode", 5, 4, "L"], ["mode", 5, 4, "LA"], ["mode", 5, 4, "P"], ["mode", 5, 4, "P+t"]]
 GIFS = [["gif", 5, 4, 2, 0], ["gif", 5, 4, 2, 1]]
@@ -396,7 +397,7 @@ def build_cases(tier):
     cells = [[2, 3], [8, 16], [9, 18], [16, 32]]
     comp = [0, 4] if quick else list(range(10))
     # kitty: strip arithmetic / chunk boundaries end to end
-    add(_prod(style=["kitty"], identity=["kitty"], method=["lines", "whole"], src=BOUNDARY + [SMALL[2]], cell=cells,
+    add(_prod(style=["kitty"], identity=["kitty"], method=["lines", "whole"], src=BOUNDARY + MIXED + [SMALL[2]], cell=cells,
               size=sizes, compress=comp, alpha=["default", None] if quick else ALPHAS))
     # kitty: payload and keys
     add(_prod(style=["kitty"], identity=["kitty", "konsole"], method=["lines", "whole"], src=BOUNDARY + SMALL + GIFS,
@@ -404,7 +405,7 @@ def build_cases(tier):
               mix=[False, True], blend=[True, False]))
     # iterm2: strips / resolutions
     iid = ["iterm2", "konsole"] if quick else ["iterm2", "wezterm", "konsole"]
-    add(_prod(style=["iterm2"], identity=iid, method=["lines", "whole", "anim"], src=BOUNDARY + [SMALL[2]],
+    add(_prod(style=["iterm2"], identity=iid, method=["lines", "whole", "anim"], src=BOUNDARY + MIXED + [SMALL[2]],
               cell=cells[:3], size=sizes, compress=[0, 4] if quick else [0, 4, 9],
               alpha=["default", None] if quick else ALPHAS))
     # iterm2: payload kinds, jpeg, read-from-file
